@@ -142,12 +142,17 @@ def rule_consts(ctx):
     f = ctx.func(TOPO, "SRTM30.get_grids")
     ctx.ob("SRTM30.cell_size", k["_dlat"] * k["_tile_height"] == 50 and k["_dlon"] * k["_tile_width"] == 40,
            "_dlat * _tile_height = %s, _dlon * _tile_width = %s" % (k["_dlat"] * k["_tile_height"], k["_dlon"] * k["_tile_width"]), "50 and 40 degrees (30 arc seconds per cell)", node=f.node, func=f)
-    A = {}
-    for st in f.body:
-        if isinstance(st, ast.Assign) and isinstance(st.targets[0], ast.Name):
-            A.setdefault(st.targets[0].id, []).append(norm(st.value).replace(" ", ""))
-    okg = A.get("lat_grid") == ["np.linspace(start,stop,SRTM30._tile_height)[::-1]"] and A.get("lon_grid") == ["np.linspace(start,stop,SRTM30._tile_width)"] \
-        and A.get("start") == ["lat_min+0.5*SRTM30._dlat", "lon_min+0.5*SRTM30._dlon"] and A.get("stop") == ["lat_max-0.5*SRTM30._dlat", "lon_max-0.5*SRTM30._dlon"]
+    gflow = Flow(f)
+    rets_g = [r_ for r_ in gflow.stmts if isinstance(r_, ast.Return)]
+    ub = [st for st in gflow.stmts if isinstance(st, ast.Assign) and isinstance(st.targets[0], ast.Tuple) and len(st.targets[0].elts) == 4
+          and calls_in(st.value, "get_bounds")]
+    if len(rets_g) != 1 or not isinstance(rets_g[0].value, ast.Tuple) or len(rets_g[0].value.elts) != 2 or len(ub) != 1:
+        raise AnalysisError("get_grids: bounds unpacking / (lat_grid, lon_grid) return not found")
+    b0, b1, b2, b3 = [norm(e) for e in ub[0].targets[0].elts]
+    lat_e, lon_e = [norm(gflow.resolve(e, at=rets_g[0], depth=4, stop=(b0, b1, b2, b3))).replace(" ", "") for e in rets_g[0].value.elts]
+    A = {"lat_grid": [lat_e], "lon_grid": [lon_e]}
+    okg = lat_e == "np.linspace(%s+0.5*SRTM30._dlat,%s-0.5*SRTM30._dlat,SRTM30._tile_height)[::-1]" % (b0, b2) \
+        and lon_e == "np.linspace(%s+0.5*SRTM30._dlon,%s-0.5*SRTM30._dlon,SRTM30._tile_width)" % (b1, b3)
     ctx.ob("SRTM30.get_grids", okg, "lat: %s; lon: %s" % (A.get("lat_grid"), A.get("lon_grid")),
            "cell centres from edge + d/2 to edge - d/2: latitude descending (reversed), longitude ascending", node=f.node, func=f)
     g = ctx.func(TOPO, "SRTM30.get_tile")
@@ -177,25 +182,29 @@ def rule_cache(ctx):
     if not dl or not ff:
         raise AnalysisError("get_tile: download / read calls not found")
     P = norm(ff[0].args[0])
+    from ..flow import guard_chain
     g = parent(enclosing_stmt(dl[0]))
+    while g is not None and not isinstance(g, (ast.If, ast.FunctionDef)):
+        g = parent(g)
     ok = False
     fact = "download is unconditional"
-    if isinstance(g, ast.If) and enclosing_stmt(dl[0]) in g.body:
-        fact = "if %s: download" % norm(g.test)
-        atoms = sorted(set(norm(c) for c in calls_in(g.test, "exists")))
+    chain = guard_chain(enclosing_stmt(dl[0]), implicit=True)
+    if chain:
+        fact = "download under: %s" % [("" if p_ else "not ") + str(norm(t_)) for t_, p_ in chain]
+        atoms = sorted(set(str(norm(c)) for t_, _ in chain for c in calls_in(t_, "exists")))
         want_atom = "os.path.exists(%s)" % P
         tt_ok = want_atom in atoms
         if tt_ok:
             for vals in itertools.product([False, True], repeat=len(atoms)):
                 env = dict(zip(atoms, vals))
-                got = bool(Interp(env).ev(g.test))
+                got = all(bool(Interp(env).ev(t_)) == p_ for t_, p_ in chain)
                 if got != (not env[want_atom]):
                     tt_ok = False
         ok = tt_ok
     ctx.ob("SRTM30.get_tile.guard", ok, fact, "download iff `not os.path.exists(<the file read below>)` - independent of any other file (an extracted tile without its archive is cached)",
            node=g if isinstance(g, ast.If) else dl[0], func=f)
     flow = Flow(f)
-    ok2 = all(flow.cfg.dominated_by(n, set(flow.cfg.nodes(g))) for n in flow.cfg.nodes(enclosing_stmt(ff[0]))) if isinstance(g, ast.If) else False
+    ok2 = flow._order(enclosing_stmt(ff[0])) > flow._order(enclosing_stmt(dl[0])) and not guard_chain(enclosing_stmt(ff[0]), implicit=True)
     ctx.ob("SRTM30.get_tile.order", ok2 and norm(dl[0].args[0]) == f.params[0], "read of %s after the guard: %s" % (P, ok2), "the read follows the (possible) download of the same tile", node=ff[0], func=f)
 
 
